@@ -452,7 +452,7 @@ func (v *Verifier) execReturn(s *State, x *ast.ReturnStmt) []*Flow {
 	if s.dead {
 		return nil
 	}
-	return []*Flow{{St: s, Kind: flowReturn, Ret: rets, Pos: x.Pos()}}
+	return []*Flow{{St: s, Kind: flowReturn, Ret: rets, Pos: x.Pos(), ErrRet: v.isErrorReturn(x)}}
 }
 
 func (v *Verifier) curResults() []*types.Var {
@@ -1583,4 +1583,31 @@ func (v *Verifier) isLoopLocalFresh(before *State, e ast.Expr) bool {
 		}
 		return false
 	}
+}
+
+// isErrorReturn: the statement returns an error value that is not the literal nil
+// (an identifier such as err, or a call to fmt.Errorf / errors.New).
+func (v *Verifier) isErrorReturn(x *ast.ReturnStmt) bool {
+	rs := v.curResults()
+	if len(rs) == 0 {
+		return true // early exit of a function without results
+	}
+	if len(x.Results) != len(rs) {
+		return false
+	}
+	last := rs[len(rs)-1]
+	if types.TypeString(last.Type(), nil) != "error" {
+		return false
+	}
+	switch e := ast.Unparen(x.Results[len(x.Results)-1]).(type) {
+	case *ast.Ident:
+		return e.Name != "nil"
+	case *ast.CallExpr:
+		if se, ok := e.Fun.(*ast.SelectorExpr); ok {
+			if id, ok := se.X.(*ast.Ident); ok && (id.Name == "fmt" && se.Sel.Name == "Errorf" || id.Name == "errors" && se.Sel.Name == "New") {
+				return true
+			}
+		}
+	}
+	return false
 }
